@@ -28,7 +28,7 @@ def cases(draw):
         "glayout": draw(st.sampled_from(["contig", "contig", "permuted", "expanded"])),
         "seed": draw(st.integers(0, 2**20)),
         "mag": draw(st.sampled_from([1.0, 1.0, 0.1, 40.0])),
-        "input": draw(st.sampled_from(["float", "float", "float", "quantized"])),
+        "input": draw(st.sampled_from(["float", "float", "float", "quantized", "quantized-other-qtype", "quantized-per-axis"])),
         "via_dequantize": draw(st.booleans()),
     }
     if kind == "linear":
@@ -104,10 +104,19 @@ def _exec_case(case):
     base = x.clone().requires_grad_(True)
     inp = _perm(base) if case["xlayout"] == "permuted" else base
     fed = inp
-    if case["input"] == "quantized":
+    if case["input"].startswith("quantized"):
         iq = aq if aq is not None else O.QT8["qint8"]
+        if case["input"] == "quantized-other-qtype":
+            iq = O.QT8["qfloat8_e4m3fn"] if iq.name != "qfloat8_e4m3fn" else O.QT8["qint8"]
         s_in = (inp.detach().abs().max() / 100.0 + 1e-6)
-        fed = quantize_activation(inp, iq, s_in)
+        if case["input"] == "quantized-per-axis" and inp.ndim >= 2 and inp.shape[0] > 1:
+            from optimum.quanto.tensor.quantizers import SymmetricQuantizer
+
+            sshape = [inp.shape[0]] + [1] * (inp.ndim - 1)
+            sc = (s_in * (1 + torch.arange(inp.shape[0], dtype=torch.float32) * 0.25)).reshape(sshape)
+            fed = SymmetricQuantizer.apply(inp, iq, 0, sc)
+        else:
+            fed = quantize_activation(inp, iq, s_in)
     tag = f"{kind}/{'frozen' if case['frozen'] else 'unfrozen'}"
     y = cut(model, fed)
     if isinstance(y, Raised):
